@@ -18,7 +18,7 @@ from ..common import rng_for, b2j
 
 LEVEL = "exploration"
 SHARDS = {"quick": 1, "thorough": 16}
-REQUIRED = ("earlier_parses_repacked", "position_sweep_cases", "roundtrips_checked", "leaf_events", "holes_checked", "overlap_cases", "offsets_nonzero")
+REQUIRED = ("families_with_selected_int_without_byte_order_in_little_endian_class", "earlier_parses_repacked", "position_sweep_cases", "roundtrips_checked", "leaf_events", "holes_checked", "overlap_cases", "offsets_nonzero")
 MIN_NONTRIVIAL = 100
 RULE = {
     "quick": "seeded generator of declaration families over the whole language (Int all widths, Data in 7 sizing modes, Bits runs, "
@@ -200,8 +200,21 @@ def run(run):
     # parse and in successive parses of one class)
     selector_profile = {"kinds": {"int": 30, "data": 10, "bits": 5, "ref": 5, "sel": 40, "em": 1}, "p_rep": 0.5, "max_depth": 2,
                         "sel_int_without_byte_order": True, "p_class_endianness": 0.6}
-    for bench in driver.families(run, rng, selector_profile, VARIANTS, nfam // 5, tag="c01s"):
+    def little_class_with_unordered_selected_int(fam):
+        # a run-time selected Int of >= 2 bytes without a byte order of its own inside a class whose default is not big-endian
+        for d in fam["decls"].values():
+            if d["opts"].get("endianness") in ("little", "local"):
+                for f in d["fields"]:
+                    if f["t"] == "sel" and any(o["t"] == "int" and o.get("endian") is None and o["n"] >= 2 for o in f["options"].values()):
+                        return True
+        return False
+    import itertools
+    for bench in itertools.chain(driver.families(run, rng, selector_profile, VARIANTS, nfam // 5, tag="c01s"),
+                                 driver.families(run, rng, dict(selector_profile, p_class_endianness=0.9, accept=little_class_with_unordered_selected_int),
+                                                 VARIANTS, nfam // 12, tag="c01se")):
         run.count("selector_heavy_families")
+        if little_class_with_unordered_selected_int(bench.fam):
+            run.count("families_with_selected_int_without_byte_order_in_little_endian_class")
         held = []
         for j in range(10):
             raw, oc = model.generate_input(bench.fam, rng, offset=0)
